@@ -98,6 +98,9 @@ fn main() {
             let refs: Vec<&dyn drive::Family> = fams.iter().map(|f| &**f).collect();
             std::process::exit(drive::run_check(prop, &refs, tier, &root, seed));
         }
+        Some("det-one") => {
+            families::determinism::det_one(args[2].parse().unwrap(), args[3].parse().unwrap());
+        }
         Some("show") => {
             // show <family> <index>: print the case and its source
             let fam = families::by_name(&args[2]).expect("family");
